@@ -110,6 +110,7 @@ type Sched struct {
 	states    map[uint64]struct{}
 	rep       Replayer
 	inQuiesce bool
+	infra     any
 }
 
 // S is the active scheduler of this process (nil = free mode: shim operations
@@ -190,6 +191,9 @@ func Run(ch Chooser, cfg Config, main func()) *Result {
 		<-th.exited
 	}
 	S = nil
+	if r.Kind == "infra" {
+		panic(s.infra)
+	}
 	return r
 }
 
@@ -436,6 +440,23 @@ func whereFunc() string {
 	}
 }
 
+// choose asks the explorer. A replay divergence (the recorded answer does not
+// fit this choice point) is raised by the explorer as a panic on the calling
+// managed goroutine; it must not be seen by the code under test (runEngine
+// would recover it): the execution ends as an infrastructure error and Run
+// re-raises the value on the controller goroutine.
+func (s *Sched) choose(n int, tag string) (c int) {
+	defer func() {
+		if r := recover(); r != nil {
+			t := s.cur
+			s.infra = r
+			s.end("infra", fmt.Sprint(r), t.ID)
+			s.parkForever(t)
+		}
+	}()
+	return s.ch.Choose(n, tag)
+}
+
 // Point is the scheduling point before a shim operation. It returns the
 // scheduler and the calling thread; (nil,nil) in free mode and (s,nil) during
 // teardown (the operation must then be a non-blocking no-op).
@@ -475,7 +496,7 @@ func Point(op string) (*Sched, *Thread) {
 			s.quick(t)
 			s.noteState(t)
 		}
-		c = s.ch.Choose(1+len(others), op)
+		c = s.choose(1+len(others), op)
 	}
 	if s.cfg.Record {
 		s.logf("T%d %-12s %-22s %s   [enabled:%s]%s", t.ID, t.Name, op, where(), ids(others), pre(c, others))
@@ -552,7 +573,7 @@ func (s *Sched) dispatch(t *Thread, what string) {
 	if len(others) > 1 {
 		s.noteState(t)
 		if s.ch.CanDeviate() {
-			c = s.ch.Choose(len(others), what+"/yield")
+			c = s.choose(len(others), what+"/yield")
 		}
 	}
 	to := others[c]
@@ -659,7 +680,7 @@ func Yield() {
 	s.noteState(t)
 	c := 0
 	if s.ch.CanDeviate() {
-		c = s.ch.Choose(len(rot)+1, "Yield")
+		c = s.choose(len(rot)+1, "Yield")
 	}
 	if c == len(rot) {
 		return
